@@ -132,3 +132,31 @@ Definition file_tag (name : list Z) : option nat :=
       tagger name
   end.
 End Tagging.
+
+(* ---- the chunk size of a source's queue, per tag (main/client.go init) ----------
+   a tag without chunk-size is chunked with the bin-size of THE SOURCE the queue
+   belongs to; a source without tags takes the tag list of the source before it (the
+   same objects), a source without bin-size that source's bin-size; a tag j > 0
+   without chunk-size takes the default tag's (propagate). 0 = omitted. *)
+Definition DEFAULT_BIN : Z := 10737418240.   (* 10 GiB, when no source gives one *)
+
+Definition queue_chunk (tag_chunk bin : Z) : Z := if tag_chunk =? 0 then bin else tag_chunk.
+
+Definition tags_chunks (l : list Z) : list Z :=
+  match l with
+  | [] => []
+  | d :: r => d :: map (fun c => if c =? 0 then d else c) r
+  end.
+
+Record csrc := mkcs { cs_bin : Z; cs_tags : option (list Z) }.
+
+Fixpoint chunk_table_from (pbin : Z) (ptags : list Z) (l : list csrc) : list (list Z) :=
+  match l with
+  | [] => []
+  | s :: r =>
+      let b := if cs_bin s =? 0 then pbin else cs_bin s in
+      let t := match cs_tags s with Some x => tags_chunks x | None => ptags end in
+      map (fun c => queue_chunk c (if b =? 0 then DEFAULT_BIN else b)) t :: chunk_table_from b t r
+  end.
+
+Definition chunk_table (l : list csrc) : list (list Z) := chunk_table_from 0 [] l.
